@@ -493,6 +493,48 @@ def gen_site_cases(seed, n, start_id=0):
     return out
 
 
+CTX_PREFIX = [
+    "a = 1;\n", "foo = g();\n", "val = a = b;\n", "arg = <Comp>{arg}</Comp>;\n",
+    "function r1(U, foo) { return <U>{foo}</U> }\n",
+    "function r2(Card, y) { let x; x = y; return <Card title={x}>{x}</Card> }\n",
+    "const r3 = (h, g) => <div onClick={h}>{g()}</div>;\n",
+    "const other1 = <Comp>{fn()}</Comp>;\n", "const other2 = <NS.Item>{a}</NS.Item>;\n",
+    "const other3 = <><b>t</b>{val}</>;\n", "const other4 = <_Fragment>{foo}</_Fragment>;\n",
+    "const other5 = <Card title=\"x\" />;\n", "const other6 = <U>{y}</U>;\n",
+    "const other7 = <input v-model={val} on={{ click: fn }} />;\n",
+    "class K1 { m() { return <Comp>{this.x()}</Comp> } static f = <div>{fn()}</div> }\n",
+    "for (const i of []) { b = <span>{i}</span>; }\n",
+    "try { a = fn(<Comp>{b}</Comp>, function () { return 1 }) } catch (e) { b = e }\n",
+    "label: { foo = () => { a = 2; return <Foo>{a}</Foo> } }\n",
+    "import { Fragment as F2, toRef as tr9 } from 'vue';\n", "import { createVNode as _createVNode } from 'vue';\n",
+    "export function r4(slots, Comp) { return <Comp v-slots={slots}>{slots}</Comp> }\n",
+    "b = <Comp>{b}</Comp>;\n", "function r5() { return [<>{a}</>, <Comp>{g()}</Comp>, <KeepAlive>{b}</KeepAlive>] }\n",
+]
+
+
+def gen_ctx_cases(seed, n, start_id=0):
+    """(prefix, JSX statement, suffix) against the same statement alone: `src` is the composed
+    module, `src_alt` the module with the statement only"""
+    out = []
+    for i in range(n):
+        g = Gen(Rng(seed * 700001 + i))
+        g.nojsx = True
+        r = g.r
+        el = g.elem(2) if r.chance(9, 10) else "<>" + g.children(2) + "</>"
+        site = "const __site = " + el + ";\n"
+        pre = "".join(r.pick(CTX_PREFIX) for _ in range(r.below(4)))
+        suf = "".join(r.pick(CTX_PREFIX) for _ in range(r.below(3)))
+        if not pre and not suf:
+            pre = r.pick(CTX_PREFIX)
+        opts = json.loads(g.options())
+        opts.pop("resolveType", None)
+        for f in ("pre:%d" % pre.count("\n"), "suf:%d" % suf.count("\n")):
+            g.f(f)
+        out.append({"id": start_id + i, "src": PROLOGUE + pre + site + suf, "src_alt": PROLOGUE + site,
+                    "syntax": "jsx", "options": json.dumps(opts), "stream": "ctx", "feat": sorted(g.feat)})
+    return out
+
+
 def gen_elem_cases(seed, n, start_id=0):
     out = []
     for i in range(n):
@@ -885,5 +927,6 @@ def gen_types_cases(seed, n, start_id=0):
 if __name__ == "__main__":
     seed = int(sys.argv[1]); n = int(sys.argv[2])
     kind = sys.argv[3] if len(sys.argv) > 3 else "module"
-    for c in (gen_types_cases(seed, n) if kind == "types" else gen_site_cases(seed, n) if kind == "site" else gen_elem_cases(seed, n)):
+    for c in (gen_types_cases(seed, n) if kind == "types" else gen_site_cases(seed, n) if kind == "site"
+              else gen_ctx_cases(seed, n) if kind == "ctx" else gen_elem_cases(seed, n)):
         print(json.dumps(c))
